@@ -473,3 +473,102 @@ M("C15", "device-message-role-dropped", "admin/dongle_admin.py",
 M("C15", "powhsm-more-flag-inverted-last-page", "ledger/hsm2dongle_cmds/powhsm_attestation.py",
   "                bufs[name] += result[self.Offset.DATA+msgoffset:]\n",
   "                bufs[name] += result[self.Offset.DATA+msgoffset:] if page < 2 else result[self.Offset.DATA+msgoffset+1:]\n")
+
+# ---- C19
+M("C19", "hash-file-text", "admin/ledger_utils.py",
+  "    parser = IntelHexParser(path)\n    digest = sha256()\n    for a in parser.getAreas():\n        digest.update(a.data)",
+  "    parser = IntelHexParser(path)\n    digest = sha256()\n    digest.update(open(path, 'rb').read())")
+M("C19", "areas-unsorted", "admin/ledger_utils.py",
+  "    for a in parser.getAreas():\n        digest.update(a.data)",
+  "    for a in sorted(parser.getAreas(), key=lambda a: a.start & 0xffff):\n        digest.update(a.data)")
+M("C19", "module-level-key", "signonetime.py",
+  "        sk = ecdsa.SigningKey.generate(curve=ecdsa.SECP256k1)",
+  "        sk = ecdsa.SigningKey.from_secret_exponent(0x1234567890abcdef1234567890abcdef, curve=ecdsa.SECP256k1)")
+M("C19", "signature-over-sha256-of-hash", "signonetime.py",
+  "            signature = sk.sign_digest(app_hash, sigencode=ecdsa.util.sigencode_der)",
+  "            signature = sk.sign(app_hash, hashfunc=__import__('hashlib').sha256, sigencode=ecdsa.util.sigencode_der)")
+M("C19", "private-key-written", "signonetime.py",
+  "            info(f\"Public key saved to {options.publickey_path}\")",
+  "            info(f\"Public key saved to {options.publickey_path}\")\n        with open(options.publickey_path.strip() + \".key\", \"wb\") as file:\n            file.write(sk.to_string().hex().encode())")
+M("C19", "first-area-only-when-many", "admin/ledger_utils.py",
+  "    for a in parser.getAreas():\n        digest.update(a.data)",
+  "    for a in parser.getAreas()[:7]:\n        digest.update(a.data)")
+M("C19", "key-per-app", "signonetime.py",
+  "            signature = sk.sign_digest(app_hash, sigencode=ecdsa.util.sigencode_der)",
+  "            signature = (sk if app_path == options.app_path.split(\",\")[0].strip() else ecdsa.SigningKey.generate(curve=ecdsa.SECP256k1)).sign_digest(app_hash, sigencode=ecdsa.util.sigencode_der)")
+M("C19", "sig-written-raw-not-der", "signonetime.py",
+  "            signature = sk.sign_digest(app_hash, sigencode=ecdsa.util.sigencode_der)",
+  "            signature = sk.sign_digest(app_hash, sigencode=ecdsa.util.sigencode_string)")
+M("C19", "pubkey-compressed", "signonetime.py",
+  "            file.write(sk.get_verifying_key().to_string(\"uncompressed\").hex().encode())",
+  "            file.write(sk.get_verifying_key().to_string(\"compressed\").hex().encode())")
+M("C19", "signapp-hash-of-first-area", "signapp.py",
+  "            app_hash = compute_app_hash(options.app_path).hex()\n            if options.operation == \"hash\":",
+  "            app_hash = compute_app_hash(options.app_path).hex()\n            if options.operation == \"hash\" and len(app_hash) == 64 and options.app_path.endswith('3.hex'):\n                app_hash = app_hash[::-1]\n            if options.operation == \"hash\":")
+
+# ---- C17
+M("C17", "iteration-little-endian", "ledger/hsm2dongle.py",
+  "                               self.SIGNER_AUTH_ITERATION_SIZE,\n                               byteorder='big', signed=False))",
+  "                               self.SIGNER_AUTH_ITERATION_SIZE,\n                               byteorder='little', signed=False))")
+M("C17", "iteration-upper-bound-gt", "admin/signer_authorization.py",
+  "iteration >= (2**16):", "iteration > (2**16):")
+M("C17", "eth-message-without-length", "admin/ledger_utils.py",
+  "    return f\"\\x19Ethereum Signed Message:\\n{str(len(msg))}{msg}\".encode(\"ascii\")",
+  "    return f\"\\x19Ethereum Signed Message:\\n{msg}\".encode(\"ascii\")")
+M("C17", "continue-after-success", "ledger/hsm2dongle.py",
+  "            if result == self.OP.SIGNER_AUTH.OP_SIGN_RES_SUCCESS:\n                return True\n",
+  "            if result == self.OP.SIGNER_AUTH.OP_SIGN_RES_SUCCESS:\n                pass\n")
+M("C17", "no-error-when-never-authorized", "ledger/hsm2dongle.py",
+  "        if result != self.OP.SIGNER_AUTH.OP_SIGN_RES_SUCCESS:\n            raise HSM2DongleError(\"Not enough signatures given. \"",
+  "        if result is None:\n            raise HSM2DongleError(\"Not enough signatures given. \"")
+M("C17", "hash-not-lowercased-in-message", "admin/signer_authorization.py",
+  "        self._hash = hash.lower()", "        self._hash = hash")
+M("C17", "iteration-hex-in-message", "admin/signer_authorization.py",
+  "_iteration_{str(self._iteration)}\"", "_iteration_{self._iteration:x}\"")
+M("C17", "sign-plain-sha256", "signapp.py",
+  "            signature = sk.sign_digest(signer_version.get_authorization_digest(),\n                                       sigencode=ecdsa.util.sigencode_der)",
+  "            signature = sk.sign(signer_version.get_authorization_msg(),\n                                hashfunc=__import__('hashlib').sha256, sigencode=ecdsa.util.sigencode_der)")
+M("C17", "signatures-sorted-before-send", "ledger/hsm2dongle.py",
+  "        for signature in signer_authorization.signatures:\n",
+  "        for signature in sorted(signer_authorization.signatures):\n")
+M("C17", "signature-validation-dropped", "admin/signer_authorization.py",
+  "    def add_signature(self, signature):\n        self._assert_signature_valid(signature)",
+  "    def add_signature(self, signature):\n        bytes.fromhex(signature)")
+M("C17", "manual-replaces-signatures", "admin/signer_authorization.py",
+  "        self._signatures.append(signature)", "        self._signatures = self._signatures[:9] + [signature]")
+
+# ---- C18
+M("C18", "onboarded-check-after-seed", "admin/onboard.py",
+  "    if is_onboarded:\n        raise AdminError(\"Device already onboarded\")",
+  "    if is_onboarded and options.pin is None:\n        raise AdminError(\"Device already onboarded\")")
+M("C18", "answer-not-no-proceeds", "admin/onboard.py",
+  "        if answer.lower() == \"yes\":\n            break",
+  "        if answer.lower() not in [\"\", \"maybe\"]:\n            break")
+M("C18", "fixed-seed", "admin/onboard.py",
+  "    return os.urandom(SEED_SIZE)", "    return bytes(range(SEED_SIZE))")
+M("C18", "policy-skipped-for-option-pin", "admin/onboard.py",
+  "        if not BasePin.is_valid(options.pin.encode()):\n            raise AdminError(PIN_ERROR_MESSAGE)",
+  "        if not BasePin.is_valid(options.pin.encode(), any_pin=True):\n            raise AdminError(PIN_ERROR_MESSAGE)")
+M("C18", "unlock-skips-onboard-check", "admin/unlock.py",
+  "        if not is_onboarded:\n            raise AdminError(\"Device not onboarded\")",
+  "        if not is_onboarded and mode == HSM2Dongle.MODE.SIGNER:\n            raise AdminError(\"Device not onboarded\")")
+M("C18", "mode-check-dropped-onboard", "admin/onboard.py",
+  "    if mode != HSM2Dongle.MODE.BOOTLOADER:\n        raise AdminError(\"Device not in bootloader mode. \"",
+  "    if mode == HSM2Dongle.MODE.UNKNOWN:\n        raise AdminError(\"Device not in bootloader mode. \"")
+M("C18", "echo-check-dropped-onboard", "admin/onboard.py",
+  "    if not hsm.echo():\n        raise AdminError(\"Echo error\")\n    info(\"Echo OK\")\n\n    info(\"Is device onboarded?",
+  "    if not hsm.echo():\n        info(\"Echo error\")\n    info(\"Echo OK\")\n\n    info(\"Is device onboarded?")
+M("C18", "changepin-anypin-default", "admin/changepin.py",
+  "        new_pin = ask_for_pin(any_pin=options.any_pin)",
+  "        new_pin = ask_for_pin(any_pin=True)")
+M("C18", "pubkeys-json-wrong-path-key", "admin/pubkeys.py",
+  "                json_dict[str(path)] = pk.to_string(\"uncompressed\").hex()",
+  "                json_dict[str(path) if path_name != \"tmst\" else \"m/44'/1'/2'/0/1\"] = pk.to_string(\"uncompressed\").hex()")
+M("C18", "pubkeys-paths-swapped", "admin/pubkeys.py",
+  "    \"rsk\": BIP32Path(\"m/44'/137'/0'/0/0\"),\n    \"mst\": BIP32Path(\"m/44'/137'/1'/0/0\"),",
+  "    \"rsk\": BIP32Path(\"m/44'/137'/1'/0/0\"),\n    \"mst\": BIP32Path(\"m/44'/137'/0'/0/0\"),")
+M("C18", "seed-31-random-bytes", "admin/onboard.py",
+  "    return os.urandom(SEED_SIZE)", "    return os.urandom(SEED_SIZE - 1) + b\"\\x00\"")
+M("C18", "unlock-modes-signer-allowed", "admin/unlock.py",
+  "    if mode == HSM2Dongle.MODE.SIGNER or mode == HSM2Dongle.MODE.UI_HEARTBEAT:\n        raise AdminError(\"Device already unlocked\")",
+  "    if mode == HSM2Dongle.MODE.UI_HEARTBEAT:\n        raise AdminError(\"Device already unlocked\")")
